@@ -144,7 +144,7 @@ def final_states(circ, n):
 def same_states(a, b):
     for k in a:
         if isinstance(a[k], np.ndarray):
-            if not np.allclose(a[k], b[k], atol=1e-8):
+            if not np.allclose(a[k], b[k], atol=1e-8, rtol=0):
                 return False, k
         elif not pauli.same_group_fast(a[k], b[k]):
             return False, k
@@ -239,7 +239,7 @@ def check_program(pseed, ctx):
             except ZeroDivisionError:
                 ctx.violation("standard_reader_branch_impossible", case, {"outcomes": seq}, key="reader_branch")
                 break
-            if not np.allclose(rho, st.rho, atol=1e-8):
+            if not np.allclose(rho, st.rho, atol=1e-8, rtol=0):
                 wrappers = [o.text() for o in order if o.kind == "W"]
                 ctx.violation("openqasm_text_denotes_another_state", case, {"outcomes": seq, "max_abs_diff": float(np.max(np.abs(rho - st.rho))),
                                                                             "wrappers": wrappers[:6]}, key="reader_state")
